@@ -56,8 +56,10 @@ Inductive reg_rule :=
 
 Record row := mkrow { r_cfa : cfa_rule; r_fp : reg_rule; r_ra : reg_rule }.
 
-(* u64::try_from(i64::try_from(val).ok()?.checked_add(offset)?).ok() *)
-Definition u64_plus_i64 (val : N) (off : Z) : option N :=
+(* checked_add_signed(val, offset)   (fix for S17; before it was
+   u64::try_from(i64::try_from(val).ok()?.checked_add(offset)?).ok(), kept as u64_plus_i64_old) *)
+Definition u64_plus_i64 (val : N) (off : Z) : option N := adds64c val off.
+Definition u64_plus_i64_old (val : N) (off : Z) : option N :=
   obind (u64_to_i64 val) (fun v => obind (addi64c v off) i64_to_u64).
 
 Definition eval_cfa_rule (c : cfa_rule) : option N :=
